@@ -310,6 +310,7 @@ theorem no_dispatch_after_join {s s' : St} {e : Event} (hsend : s.sender = false
     · obtain ⟨k, _, rfl⟩ := hc; exact ⟨rfl, hsend⟩
     · obtain ⟨v, _, _, rfl⟩ := hc; exact ⟨rfl, hsend⟩
     · obtain ⟨_, _, rfl⟩ := hc; exact ⟨rfl, hsend⟩
+  | remoteWake t => obtain ⟨_, rfl⟩ := remoteWake?_some hs; exact ⟨rfl, hsend⟩
   | die w p => obtain ⟨_, _, rfl⟩ := die?_some hs; exact ⟨rfl, hsend⟩
   | reap w => obtain ⟨p, _, _, rfl⟩ := reap?_some hs; exact ⟨rfl, by simpa using hsend⟩
   | joinStart => obtain ⟨h1, _⟩ := joinStart?_some hs; rw [hsend] at h1; cases h1
@@ -334,14 +335,15 @@ theorem run_after_join_internal {s s' : St} {evs : List Event} (hsend : s.sender
 /-- "The receiver resolves" as bounded progress.  From any reachable state in which `join` has been called:
 (1) until `join` returns, some event is enabled (no deadlock) -- in sequential mode provided no task body hangs
 forever, because `join` then really waits for it; (2) every continuation of the schedule has at most `rank s`
-events (no infinite run, explicit bound); (3) when `join` has returned, no receiver of a dispatched task is
+events besides wake-ups of task wakers, which do no work and may come in any number (no infinite run, explicit
+bound); (3) when `join` has returned, no receiver of a dispatched task is
 pending.  So after at most `rank s` further events of any maximal schedule every receiver has resolved, to
 the value or to cancellation. -/
 theorem receiver_resolves_bounded {nw : Nat} {conc : Bool} {s : St} (h : Reachable nw conc s)
     (hsend : s.sender = false) :
     (s.joined = none → (s.conc = false → ∀ t, (s.body t).out ≠ .never) →
         ∃ e, e.external = false ∧ (step? s e).isSome = true) ∧
-    (∀ evs s', run? s evs = some s' → evs.length ≤ rank s) ∧
+    (∀ evs s', run? s evs = some s' → (workEvents evs).length ≤ rank s) ∧
     (∀ r, s.joined = some r → ∀ t, s.onWorkers t → s.chan t ≠ .pending) := by
   refine ⟨fun hj ht => join_never_stuck h.inv hsend hj ht, ?_, fun r hj t => no_receiver_pending_after_join h r hj t⟩
   intro evs s' hr
@@ -352,9 +354,90 @@ theorem receiver_resolves_bounded {nw : Nat} {conc : Bool} {s : St} (h : Reachab
 segment without new `dispatch` calls is at most `rank s` long. -/
 theorem internal_events_bounded {nw : Nat} {conc : Bool} {s s' : St} (h : Reachable nw conc s)
     (evs : List Event) (hint : ∀ e, e ∈ evs → e.external = false) (hr : run? s evs = some s') :
-    evs.length ≤ rank s := by
+    (workEvents evs).length ≤ rank s := by
   have := internal_run_bounded h.inv hint hr
   omega
+
+/-! ### wake-ups from other threads -/
+
+/-- A dispatched task may be woken from any thread at any time -- also between two events of its own poll --
+and any number of times: `remoteWake t` is enabled in every state of an accepted task. -/
+theorem remote_wake_always_possible (s : St) (t : Nat) (h : s.stat t ≠ .absent) :
+    (step? s (.remoteWake t)).isSome = true := by
+  simp [step?, remoteWake?, h]
+
+/-- A wake-up changes nothing but the pending-wake flag: it can neither start a task a second time nor
+resolve or cancel a receiver. -/
+theorem remote_wake_only_marks {s s' : St} {t : Nat} (hs : step? s (.remoteWake t) = some s') (t' : Nat) :
+    s'.stat t' = s.stat t' ∧ s'.chan t' = s.chan t' ∧ s'.started t' = s.started t' ∧ s'.main = s.main ∧
+      s'.woken t = true := by
+  obtain ⟨_, rfl⟩ := remoteWake?_some hs
+  exact ⟨rfl, rfl, rfl, rfl, by simp⟩
+
+/-- A pending wake is never lost: only a poll of the task itself consumes it. -/
+theorem wake_not_lost {s s' : St} {e : Event} (hs : step? s e = some s') (t : Nat) (hw : s.woken t = true) :
+    s'.woken t = true ∨ ∃ w, e = .poll w t := by
+  cases e with
+  | dispatch d t0 b =>
+    obtain ⟨_, _, _, hc | hc⟩ := dispatch?_some hs <;> (obtain ⟨_, rfl⟩ := hc; exact Or.inl hw)
+  | dispatchBlocking d t0 b ok =>
+    obtain ⟨_, _, _, hc | hc⟩ := dispatchBlocking?_some hs <;> (obtain ⟨_, rfl⟩ := hc; exact Or.inl hw)
+  | runBlocking t0 =>
+    obtain ⟨_, hc | hc⟩ := runBlocking?_some hs
+    · obtain ⟨v, _, rfl⟩ := hc; exact Or.inl hw
+    · obtain ⟨_, rfl⟩ := hc; exact Or.inl hw
+  | rxDrop t0 => obtain ⟨_, _, rfl⟩ := rxDrop?_some hs; exact Or.inl hw
+  | recv w t0 => obtain ⟨_, _, _, rfl⟩ := recv?_some hs; exact Or.inl hw
+  | poll w t0 =>
+    by_cases ht : t0 = t
+    · subst ht; exact Or.inr ⟨w, rfl⟩
+    · left
+      have hne : t ≠ t0 := fun h => ht h.symm
+      obtain ⟨_, _, hc | hc | hc | hc⟩ := poll?_some hs
+      · obtain ⟨_, rfl⟩ := hc; simpa [upd_other _ _ hne] using hw
+      · obtain ⟨k, _, rfl⟩ := hc; simpa [upd_other _ _ hne] using hw
+      · obtain ⟨v, _, _, rfl⟩ := hc; simpa [upd_other _ _ hne] using hw
+      · obtain ⟨_, _, rfl⟩ := hc; simpa [upd_other _ _ hne] using hw
+  | remoteWake t0 =>
+    obtain ⟨_, rfl⟩ := remoteWake?_some hs
+    left; show upd s.woken t0 true t = true
+    rw [upd_apply]; split <;> simp [hw]
+  | die w p => obtain ⟨_, _, rfl⟩ := die?_some hs; exact Or.inl hw
+  | reap w => obtain ⟨p, _, _, rfl⟩ := reap?_some hs; left; simpa using hw
+  | joinStart => obtain ⟨_, rfl⟩ := joinStart?_some hs; left; simpa using hw
+  | joinPool => obtain ⟨_, _, rfl⟩ := joinHand?_some hs; exact Or.inl hw
+  | joinFallbackThread => obtain ⟨_, _, rfl⟩ := joinHand?_some hs; exact Or.inl hw
+  | exitLoop w => obtain ⟨_, _, _, _, rfl⟩ := exitLoop?_some hs; exact Or.inl hw
+  | teardown w => obtain ⟨_, _, rfl⟩ := teardown?_some hs; exact Or.inl hw
+  | joinReturn => obtain ⟨_, _, _, rfl⟩ := joinReturn?_some hs; exact Or.inl hw
+
+/-- A task with a pending wake is polled again: as long as it lives in the executor of a worker that still
+runs, its poll is enabled (whatever was woken, by whom, and when -- also during the previous poll); the only
+exception is a body that has nothing left to do but hang for ever.  Together with `wake_not_lost` and the
+variant (`internal_events_bounded`): the wake stays pending until that poll happens, and only boundedly many
+other events can come first.  If the worker thread is panicking instead, `reap` is enabled and the receiver is
+cancelled. -/
+theorem woken_task_polled_again {nw : Nat} {conc : Bool} {s : St} (h : Reachable nw conc s) (t w : Nat)
+    (ha : s.active t w) (hnever : ¬ (s.stat t = .running w 0 ∧ (s.body t).out = .never)) :
+    ((s.main w).canPoll = true → (step? s (.poll w t)).isSome = true) ∧
+    ((s.main w).canPoll = false → (step? s (.reap w)).isSome = true) := by
+  obtain ⟨hw, hg⟩ := h.inv.w.alive t w ha
+  constructor
+  · intro hc
+    cases hst : s.stat t <;> simp [St.active, hst, TStat.activeOn] at ha
+    · subst ha; simp [step?, poll?, hw, hc, hst]
+    · subst ha
+      rename_i k
+      cases k with
+      | succ k => simp [step?, poll?, hw, hc, hst]
+      | zero =>
+        cases ho : (s.body t).out with
+        | never => exact (hnever ⟨hst, ho⟩).elim
+        | ok v => simp [step?, poll?, hw, hc, hst, ho]
+        | panic => simp [step?, poll?, hw, hc, hst, ho]
+  · intro hc
+    cases hm : s.main w <;> simp [hm, Main.canPoll, Main.gone] at hc hg
+    simp [step?, reap?, hm, hw]
 
 /-! ### the tie to the driver -/
 
